@@ -2,7 +2,7 @@
 import os
 from hypothesis import strategies as st
 from vlib.runner import Part, Violation
-from vlib import trace as T, tools, obs
+from vlib import trace as T, tools, obs, gen, judge
 
 ID = "C16"
 VARIANTS = ["plain"]
@@ -24,6 +24,7 @@ ASSUMPTIONS = ["events of an unsorted region never carry a clock larger than the
 @st.composite
 def streams(draw):
     nreg = draw(st.integers(0, 5))
+    foreign = draw(st.integers(0, 2)) == 0
     evs = []          # [mcv, clock, payload_hex, jumbo, tag]
     clk = 1000
     evs.append(T.OHx(clk, 0))
@@ -60,6 +61,20 @@ def streams(draw):
             e = filler()
             e[1] = draw(st.integers(lo, max(lo, hi)))
             inner.append(e)
+        if foreign and draw(st.booleans()):
+            # events of other models whose codes look like the region markers (?U[ / ?U]): a
+            # begin/end pair with late clocks somewhere among the inner events
+            m = draw(st.sampled_from(["6", "D", "V"]))
+            c1 = draw(st.integers(lo, max(lo, hi)))
+            c2 = draw(st.integers(c1, max(c1, hi)))
+            at = draw(st.integers(0, len(inner)))
+            inner[at:at] = [T.ev(m + "U[", c1, ""), T.ev(m + "U]", c2, "")]
+            more = draw(st.integers(0, 2))
+            for _ in range(more):
+                e = filler()
+                e[1] = draw(st.integers(lo, max(lo, hi)))
+                inner.append(e)
+            n_in = len(inner)
         evs += inner
         clk = max(clk, max(e[1] for e in inner)) + draw(st.integers(0, 2))
         evs.append(T.ev("OU]", clk, ""))
@@ -71,7 +86,13 @@ def streams(draw):
     scale = draw(st.sampled_from([1, 1, 1, 2 ** 31 + 3, 2 ** 32, 5 * 10 ** 9]))
     for e in evs:
         e[1] = 1000 + (e[1] - 1000) * scale
-    return {"events": evs, "n": n, "second_stream": draw(st.booleans())}
+    # a third of the runs: every pwrite() of the tool is a legal short write (at most 40 or 1000 bytes)
+    return {"events": evs, "n": n, "second_stream": draw(st.booleans()), "pwrite": draw(st.sampled_from([None, None, 40, 1000]))}
+
+
+def setup(ctx):
+    from vlib import rt
+    return {"shim": rt.compile_shim(ctx.b("plain"))}
 
 
 def analyse(evs, n):
@@ -122,6 +143,8 @@ def run(case, ctx):
     n = case["n"]
     s0 = {"loom": "n.0", "pid": 1, "tid": 1, "app": 1, "cpus": [[0, 0], [1, 1]], "events": evs,
           "extra": {"ovni.mark": {"0": {"title": "m", "chan_type": "single"}}}}
+    if any(e[0][1] == "U" and e[0][0] != "O" for e in evs):
+        s0["require"] = gen.require_for(["6", "D", "V"])
     streams = [s0]
     if case["second_stream"]:
         # a second, already sorted stream; for odd n (or default n) it precedes the
@@ -142,7 +165,8 @@ def run(case, ctx):
         path = os.path.join(d, T.stream_relpath(s0), "stream.obs")
         orig = open(path, "rb").read()
         flags = [] if n is None else ["-n", str(n)]
-        r = tools.sort(b, d, flags)
+        env = {"LD_PRELOAD": ctx.shared["shim"], "SHIM_PWRITE": str(case["pwrite"])} if case.get("pwrite") else None
+        r = tools.sort(b, d, flags, env=env)
         new = open(path, "rb").read()
         if r.kind == "rejected":
             if required:
@@ -164,7 +188,7 @@ def run(case, ctx):
             k = next((i for i, (a, b_) in enumerate(zip(got, want)) if a != b_), min(len(got), len(want)))
             raise Violation("sorted stream differs from the stable sort of the original at event %d: got %s want %s"
                             % (k, got[k:k + 3], want[k:k + 3]))
-        r2 = tools.sort(b, d, flags)
+        r2 = tools.sort(b, d, flags, env=env)
         if open(path, "rb").read() != new:
             raise Violation("second ovnisort run modified an already sorted stream")
         # a region may have grown (events of a later region sorted into it), so the
@@ -175,15 +199,21 @@ def run(case, ctx):
         rc = tools.sort(b, d, ["-c"])
         if not rc.ok:
             raise Violation("ovnisort -c fails after a successful sort: %s" % rc.brief())
+        # the emulator must accept the sorted trace whenever the sorted history is a legal one
+        # (events of other models that moved may have ended up in an order that is not)
+        s_sorted = dict(s0)
+        s_sorted["events"] = [list(x) for x in want]
+        verdict = judge.model_verdict_u({"streams": [s_sorted] + streams[1:]}, lint=True)[0]
         re_ = tools.emu(b, d, ("-l",))
-        if not re_.ok:
+        if verdict == "accept" and not re_.ok:
             raise Violation("ovniemu rejects the sorted stream: %s" % re_.brief())
         for s in streams[1:]:
             pass
     finally:
         ctx.rmdir(d)
     return {"nt": moved, "cls": ["outcome:sorted", "n:" + ("default" if n is None else "small"),
-                                 "required" if required else "beyond-window"]}
+                                 "required" if required else "beyond-window", "sorted-history:" + verdict] + (["short-pwrite"] if case.get("pwrite") else [])
+            + (["foreign-U-events"] if "require" in s0 else [])}
 
 
 def parts(tier):
